@@ -1978,7 +1978,7 @@ fn process_emitted(case: &Case, pos: &str, acc: &mut Acc) {
         match guard(|| compile1(&src, cfg, Mode::NoPipeline)) {
             Err(p) => violation(
                 acc,
-                format!("emitted|{}|panic|{}|{}", pos, file_class(&p), msg_norm(&p)),
+                format!("emitted|{}|panic|{}|{}", pos, file_class(&p), msg_norm(&p).replace("-#", "#")),
                 format!("[{}] compiling `{}` (value {}) for {} aborts: {} ({})", pos, case.expr, n, cfg.name(), p.message, p.file),
                 case,
             ),
